@@ -27,6 +27,7 @@ type c01Case struct {
 	Aliases map[string]string `json:"aliases,omitempty"`
 	AllKind bool              `json:"all_kinds,omitempty"` // deliver through all four source kinds
 	Flaky   bool              `json:"flaky,omitempty"`     // deliver through readers with one transient failure, at every position
+	Persist bool              `json:"persist,omitempty"`   // deliver through readers that fail at position k and at every later call, for every k
 	Shape   string            `json:"shape,omitempty"`     // a scaling family (work-bound probe)
 	Forced  bool              `json:"forced,omitempty"`    // run under forced schedules (here-document hand-over)
 	Kind    string            `json:"kind"`
@@ -89,15 +90,16 @@ func (r *oneByteReader) Read(p []byte) (int, error) {
 // read position reaches k, and then go on delivering the data (a timed-out
 // network read; bufio turns every flaky io.Reader into this shape).
 type flakyReader struct {
-	b     []byte
-	i, k  int
-	fired bool
+	b       []byte
+	i, k    int
+	fired   bool
+	persist bool
 }
 
 var errFlaky = fmt.Errorf("transient read failure")
 
 func (r *flakyReader) Read(p []byte) (int, error) {
-	if r.i == r.k && !r.fired {
+	if r.i == r.k && (!r.fired || r.persist) {
 		r.fired = true
 		return 0, errFlaky
 	}
@@ -113,13 +115,14 @@ func (r *flakyReader) Read(p []byte) (int, error) {
 }
 
 type flakyScanner struct {
-	r     *bytes.Reader
-	i, k  int
-	fired bool
+	r       *bytes.Reader
+	i, k    int
+	fired   bool
+	persist bool
 }
 
 func (s *flakyScanner) ReadRune() (rune, int, error) {
-	if s.i == s.k && !s.fired {
+	if s.i == s.k && (!s.fired || s.persist) {
 		s.fired = true
 		return 0, 0, errFlaky
 	}
@@ -232,8 +235,8 @@ func c01Exec(c *core.Ctx, cs c01Case) {
 		kinds = []int{0, 1, 2, 3}
 	}
 	n := utf8.RuneCount(cs.Src)
-	if cs.Flaky {
-		// a transient read failure at every position, through both reader kinds
+	if cs.Flaky || cs.Persist {
+		// a transient (Persist: a lasting) read failure at every position, through both reader kinds
 		kinds = nil
 		for k := 0; k <= len(cs.Src); k++ {
 			kinds = append(kinds, 4+2*k)
@@ -249,15 +252,15 @@ func c01Exec(c *core.Ctx, cs c01Case) {
 		if k >= 4 {
 			fk = (k - 4) / 2
 			k = 4 + (k-4)%2
-			if !cs.Flaky {
+			if !cs.Flaky && !cs.Persist {
 				fk = int(c.Index()/6) % (len(cs.Src) + 1)
 			}
 		}
 		switch k {
 		case 4:
-			src = &flakyReader{b: append([]byte(nil), cs.Src...), k: fk}
+			src = &flakyReader{b: append([]byte(nil), cs.Src...), k: fk, persist: cs.Persist}
 		case 5:
-			src = &flakyScanner{r: bytes.NewReader(cs.Src), k: fk}
+			src = &flakyScanner{r: bytes.NewReader(cs.Src), k: fk, persist: cs.Persist}
 		case 0:
 			src = string(cs.Src)
 		case 1:
@@ -406,6 +409,15 @@ func c01Gen(c *core.Ctx) {
 		}
 		core.Do(c, c01Case{Src: []byte(strings.Join(parts, " ")), Flaky: true, Kind: "flaky-token-string"}, c01Exec)
 	})
+	// 1c. lasting read failures (a closed file, a broken connection) from every position of
+	// sources whose scanning loops are not reached by the token strings above: comments in
+	// every position, here-document bodies, quotes, expansions, arithmetic, continuations
+	for _, src := range []string{"echo a # c\n", "echo a #", "echo $(b # c\n) d\n", "( a; b ) # c\nd\n", "a | # c\n b\n", "# c\n# d\necho\n", "a && # c\n# d\n b\n",
+		"case x in # c\n a) # d\n b ;; # e\nesac # f\n", "for i in a b # c\ndo # d\n :; done\n", "if a # c\nthen b # d\nfi\n", "f() # c\n{ a; } # d\n",
+		"cat <<E # c\nx $y\nE\n", "cat <<-'E' <<F\n\tx\n\tE\n$(a # c\n)\nF\n", "echo \"a $(b # c\n) `d` ${e:-f # g} $((1 # 2\n))\" 'h\ni' \\\nj\n",
+		"echo `a # c\n` b\n", "x=${y:-$(z # c\n)} w\n", "(( 1 + # c\n 2 ))\n", "echo ~a/b:~c # d\n", "a=1 b=2 >f 2>&1 c # d\n", "! { a; } # c\n", "a;; # c\n", "a\\\n # c\n"} {
+		core.Do(c, c01Case{Src: []byte(src), Persist: true, Kind: "persistent-read-fault"}, c01Exec)
+	}
 	// 1d. here-documents read by nested lexers, under forced schedules
 	for _, src := range []string{"echo $(cat <<E\nx\nE\n)\n", "a `cat <<E\nx\nE\n` b\n", "echo $(a <<E | b\nx\nE\n)\n", "x=$(cat <<-E\n\tE\n)\n", "echo \"$(cat <<E\n$(cat <<F\ny\nF\n)\nE\n)\"\n", "cat <<E\nx\nE\n", "{ cat <<E\nx\nE\n}\n", "echo $(cat <<E", "echo $(cat <<E\nx\n"} {
 		core.Do(c, c01Case{Src: []byte(src), Forced: true, Kind: "forced-schedules"}, c01Exec)
